@@ -34,6 +34,8 @@ pub trait G: Any {
     fn to_xml(&self) -> Result<String>;
     fn to_dot(&self) -> String;
     fn deploy(&mut self, script: &str) -> Result<usize>;
+    /// deploy a Script object that lives on between deployments (its variables too)
+    fn deploy_obj(&mut self, script: &mut Script) -> Result<usize>;
     fn snapshot(&self) -> VerifSnapshot;
     fn as_any(&self) -> &dyn Any;
 }
@@ -122,6 +124,9 @@ impl<const N: usize> G for Sodg<N> {
     }
     fn deploy(&mut self, script: &str) -> Result<usize> {
         Script::from_str(script).deploy_to(self)
+    }
+    fn deploy_obj(&mut self, script: &mut Script) -> Result<usize> {
+        script.deploy_to(self)
     }
     fn snapshot(&self) -> VerifSnapshot {
         Sodg::verif_snapshot(self)
